@@ -888,4 +888,409 @@ theorem sentPacket_ledger {s : State} {env : Env} {t : Time} {pn la : PN} {sfram
               exact DummyOK_setSpace (s := { s with bytesSent := s.bytesSent + size }) d (DummyOKH_sentPacket dsp rfl hs)
 
 
+theorem ptoSwitch_ledger {s : State} {lvl : Level} {nts : PN} {evs0 : List Ev} {disc0 : List Frame} (d : DummyOK s)
+    (hn : (s.ptoSwitch lvl nts evs0 disc0).2.res.isPanic = false) :
+    (pending s ++ evFrames evs0 ++ disc0 ~ pending (s.ptoSwitch lvl nts evs0 disc0).1 ++
+        evFrames (s.ptoSwitch lvl nts evs0 disc0).2.evs ++ (s.ptoSwitch lvl nts evs0 disc0).2.disc) ∧
+      DummyOK (s.ptoSwitch lvl nts evs0 disc0).1 := by
+  unfold State.ptoSwitch at hn ⊢
+  cases lvl with
+  | initial => exact ⟨List.Perm.refl _, d⟩
+  | handshake => exact ⟨List.Perm.refl _, d⟩
+  | invalid => exact ⟨List.Perm.refl _, d⟩
+  | zeroRTT => exact ⟨List.Perm.refl _, d⟩
+  | oneRTT =>
+    simp only [] at hn ⊢
+    cases hp : s.app.pop nts with
+    | none => simp [hp, Res.isPanic] at hn
+    | some r =>
+      obtain ⟨sp, pn, sk⟩ := r
+      simp only [hp] at hn ⊢
+      obtain ⟨p1, p2⟩ := Space.pop_spec hp d.2.2
+      cases hs : sp.hist.skippedPacket pn with
+      | none => simp [hs, Res.isPanic] at hn
+      | some h =>
+        simp only []
+        have q1 := skippedPacket_pending hs
+        have q2 := DummyOKH_skippedPacket p2 hs
+        refine ⟨?_, d.1, d.2.1, q2⟩
+        simp only [pending, q1, p1]
+        exact List.Perm.refl _
+
+theorem ptoFire_ledger {s : State} {env : Env} {now : Time} {nts : PN} {evs0 : List Ev} {disc0 : List Frame} (d : DummyOK s)
+    (hn : (s.ptoFire env now nts evs0 disc0).2.res.isPanic = false) :
+    (pending s ++ evFrames evs0 ++ disc0 ~ pending (s.ptoFire env now nts evs0 disc0).1 ++
+        evFrames (s.ptoFire env now nts evs0 disc0).2.evs ++ (s.ptoFire env now nts evs0 disc0).2.disc) ∧
+      DummyOK (s.ptoFire env now nts evs0 disc0).1 := by
+  unfold State.ptoFire at hn ⊢
+  split
+  · exact ⟨List.Perm.refl _, d⟩
+  · rename_i h0
+    rw [if_neg h0] at hn
+    cases hg : s.getSpace (s.getPTOTimeAndSpace env now).2 with
+    | none => simp [hg, Res.isPanic] at hn
+    | some ps =>
+      simp only [hg] at hn ⊢
+      split
+      · exact ⟨List.Perm.refl _, d⟩
+      · rename_i h1
+        rw [if_neg h1] at hn
+        exact ptoSwitch_ledger d hn
+
+theorem timeoutMain_ledger {s : State} {env : Env} {now : Time} {nts : PN} {evs0 : List Ev} {disc0 : List Frame} (d : DummyOK s)
+    (hn : (s.timeoutMain env now nts evs0 disc0).2.res.isPanic = false) :
+    (pending s ++ evFrames evs0 ++ disc0 ~ pending (s.timeoutMain env now nts evs0 disc0).1 ++
+        evFrames (s.timeoutMain env now nts evs0 disc0).2.evs ++ (s.timeoutMain env now nts evs0 disc0).2.disc) ∧
+      DummyOK (s.timeoutMain env now nts evs0 disc0).1 := by
+  unfold State.timeoutMain at hn ⊢
+  split
+  · rename_i h0
+    rw [if_pos h0] at hn
+    simp only [] at hn ⊢
+    have hl := @detectLostPackets_ledger s env now s.getLossTimeAndSpace.2 d
+    cases hp : (s.detectLostPackets env now s.getLossTimeAndSpace.2).2.2 with
+    | some c => simp [hp, Res.isPanic] at hn
+    | none =>
+      obtain ⟨l1, l2⟩ := hl hp
+      refine ⟨?_, l2⟩
+      simp only [evFrames_append]
+      perm_solve [l1]
+  · rename_i h0
+    rw [if_neg h0] at hn
+    split
+    · simp only []
+      split
+      · exact ⟨List.Perm.refl _, d⟩
+      · split
+        · exact ⟨List.Perm.refl _, d⟩
+        · exact ⟨List.Perm.refl _, d⟩
+    · rename_i h1
+      rw [if_neg h1] at hn
+      exact ptoFire_ledger d hn
+
+theorem onLossDetectionTimeout_ledger {s : State} {env : Env} {now : Time} {nts : PN} (d : DummyOK s)
+    (hn : (s.onLossDetectionTimeout env now nts).2.res.isPanic = false) :
+    (pending s ~ pending (s.onLossDetectionTimeout env now nts).1 ++
+        evFrames (s.onLossDetectionTimeout env now nts).2.evs ++ (s.onLossDetectionTimeout env now nts).2.disc) ∧
+      DummyOK (s.onLossDetectionTimeout env now nts).1 := by
+  unfold State.onLossDetectionTimeout State.timeoutBody at hn ⊢
+  simp only [] at hn ⊢
+  obtain ⟨p1, p2⟩ := pathProbesStep_ledger .oneRTT s.app now d.2.2
+  simp only [if_true] at p1 p2
+  have key : ∀ r : Space × List Ev × List Frame,
+      (s.app.hist.pending ~ r.1.hist.pending ++ evFrames r.2.1 ++ r.2.2) → DummyOKH r.1.hist →
+      ((({ s with app := r.1 } : State).timeoutMain env now nts r.2.1 r.2.2).2.res.isPanic = false) →
+      (pending s ~ pending (({ s with app := r.1 } : State).timeoutMain env now nts r.2.1 r.2.2).1 ++
+        evFrames (({ s with app := r.1 } : State).timeoutMain env now nts r.2.1 r.2.2).2.evs ++
+        (({ s with app := r.1 } : State).timeoutMain env now nts r.2.1 r.2.2).2.disc) ∧
+      DummyOK (({ s with app := r.1 } : State).timeoutMain env now nts r.2.1 r.2.2).1 := by
+    intro r q1 q2 q3
+    have d' : DummyOK ({ s with app := r.1 } : State) := ⟨d.1, d.2.1, q2⟩
+    obtain ⟨t1, t2⟩ := timeoutMain_ledger d' q3
+    refine ⟨?_, t2⟩
+    refine List.Perm.trans ?_ t1
+    simp only [pending]
+    perm_solve [q1]
+  split at hn
+  · rename_i hc
+    rw [if_pos hc]
+    exact key _ p1 p2 hn
+  · rename_i hc
+    rw [if_neg hc]
+    exact key (s.app, [], []) (by simp) d.2.2 hn
+
+
+/-- `FirstOutstanding` returns a packet that `lookup` finds at the same number -/
+theorem firstOutstandingFrom_spec (l : List (Option Packet)) :
+    ∀ (start pn : Int) (p : Packet), firstOutstandingFrom start l = some (pn, p) →
+      ∃ i : Nat, pn = start + i ∧ l[i]? = some (some p) := by
+  induction l with
+  | nil => intro start pn p h; simp [firstOutstandingFrom] at h
+  | cons x xs ih =>
+    intro start pn p h
+    cases x with
+    | none =>
+      simp only [firstOutstandingFrom] at h
+      obtain ⟨i, e1, e2⟩ := ih _ _ _ h
+      exact ⟨i + 1, by omega, by simpa using e2⟩
+    | some q =>
+      simp only [firstOutstandingFrom] at h
+      split at h
+      · simp only [Option.some.injEq, Prod.mk.injEq] at h
+        obtain ⟨e1, e2⟩ := h
+        subst e1 e2
+        exact ⟨0, by simp, by simp⟩
+      · obtain ⟨i, e1, e2⟩ := ih _ _ _ h
+        exact ⟨i + 1, by omega, by simpa using e2⟩
+
+theorem lookup_of_index {h : Hist} {i : Nat} {p : Packet} (e : h.packets[i]? = some (some p)) :
+    h.lookup (h.first + i) = some p := by
+  have hlt : i < h.packets.length := by
+    obtain ⟨hh, _⟩ := List.getElem?_eq_some_iff.mp e
+    exact hh
+  unfold Hist.lookup Hist.getIndex
+  have hne : h.packets.isEmpty = false := by
+    cases hp : h.packets with
+    | nil => simp [hp] at hlt
+    | cons _ _ => rfl
+  simp only [hne]
+  have h1 : ¬ (h.first + (i : Int) < h.first) := by omega
+  have h2 : (h.first + (i : Int) - h.first).toNat = i := by omega
+  simp only [h1, h2]
+  have h3 : ¬ (i > h.packets.length - 1) := by omega
+  simp [h3, e]
+
+theorem firstOutstanding_lookup {h : Hist} {pn : PN} {p : Packet} (e : h.firstOutstanding = some (pn, p)) :
+    h.lookup pn = some p := by
+  unfold Hist.firstOutstanding at e
+  split at e
+  · obtain ⟨i, e1, e2⟩ := firstOutstandingFrom_spec _ _ _ _ e
+    subst e1
+    exact lookup_of_index e2
+  · simp at e
+
+theorem queueProbePacket_ledger {s : State} {lvl : Level} (d : DummyOK s)
+    (hn : (s.queueProbePacket lvl).2.res.isPanic = false) :
+    (pending s ~ pending (s.queueProbePacket lvl).1 ++ evFrames (s.queueProbePacket lvl).2.evs ++ (s.queueProbePacket lvl).2.disc) ∧
+      DummyOK (s.queueProbePacket lvl).1 := by
+  unfold State.queueProbePacket at hn ⊢
+  cases hg : s.getSpace lvl with
+  | none => simp [hg, Res.isPanic] at hn
+  | some sp =>
+    simp only [hg] at hn ⊢
+    cases hf : sp.hist.firstOutstanding with
+    | none => simp; exact d
+    | some r =>
+      obtain ⟨pn, p⟩ := r
+      simp only [hf] at hn ⊢
+      have hl := firstOutstanding_lookup hf
+      cases hd : sp.hist.declareLost pn with
+      | panic c => simp [hd, Res.isPanic] at hn
+      | ok h =>
+        simp only [hd] at hn ⊢
+        obtain ⟨rest, f1, f2⟩ := pending_frame' hg
+        have hp := declareLost_pending hl hd
+        have dh := DummyOKH_declareLost (DummyOK_getSpace d hg) hd
+        cases hb : removeBif (s.setSpace lvl { sp with hist := h }).bytesInFlight p with
+        | none => simp [hb, Res.isPanic] at hn
+        | some b =>
+          simp only []
+          have f3 := f2 s { sp with hist := h } rfl rfl rfl
+          constructor
+          · change pending s ~ pending (State.setSpace _ lvl _) ++ _ ++ _
+            simp only [evFrames_lost, List.append_nil]
+            perm_solve [f1, f3, hp]
+          · change DummyOK (State.setSpace _ lvl _)
+            exact DummyOK_setSpace d dh
+
+
+theorem DummyOK_afterDrop {s : State} (env : Env) (now : Time) (d : DummyOK s) : DummyOK (s.afterDrop env now) := d
+theorem pending_afterDrop (s : State) (env : Env) (now : Time) : pending (s.afterDrop env now) = pending s := rfl
+
+theorem dropPackets_ledger {s : State} {env : Env} {lvl : Level} {now : Time} (d : DummyOK s)
+    (hn : (s.dropPackets env lvl now).2.res.isPanic = false) :
+    (pending s ~ pending (s.dropPackets env lvl now).1 ++ evFrames (s.dropPackets env lvl now).2.evs ++ (s.dropPackets env lvl now).2.disc) ∧
+      DummyOK (s.dropPackets env lvl now).1 := by
+  unfold State.dropPackets at hn ⊢
+  simp only [] at hn ⊢
+  generalize hs1 : (if s.isClient ∧ lvl = .handshake then ({ s with peerCompleted := true } : State) else s) = s1 at hn ⊢
+  have e1 : s1.initial = s.initial := by subst hs1; split <;> rfl
+  have e2 : s1.handshake = s.handshake := by subst hs1; split <;> rfl
+  have e3 : s1.app = s.app := by subst hs1; split <;> rfl
+  have d1 : DummyOK s1 := DummyOK_eq e1 e2 e3 d
+  rw [← pending_eq e1 e2 e3]
+  cases lvl with
+  | invalid => simp [Res.isPanic] at hn
+  | oneRTT => simp [Res.isPanic] at hn
+  | initial =>
+    simp only [] at hn ⊢
+    cases hi : s1.initial with
+    | none => simp; exact d1
+    | some sp =>
+      simp only [hi] at hn ⊢
+      cases hb : removeBifPackets s1.bytesInFlight sp.hist.packets with
+      | none => simp [hb, Res.isPanic] at hn
+      | some b =>
+        simp only []
+        constructor
+        · simp only [State.afterDrop, State.setTimer, pending, hi, spacePending, evFrames_nil, List.append_nil, List.nil_append]
+          perm_solve
+        · exact ⟨trivial, d1.2.1, d1.2.2⟩
+  | handshake =>
+    simp only [] at hn ⊢
+    cases hi : s1.handshake with
+    | none => simp; exact d1
+    | some sp =>
+      simp only [hi] at hn ⊢
+      cases hb : removeBifPackets s1.bytesInFlight sp.hist.packets with
+      | none => simp [hb, Res.isPanic] at hn
+      | some b =>
+        simp only []
+        constructor
+        · simp only [State.afterDrop, State.setTimer, pending, hi, spacePending, evFrames_nil, List.append_nil]
+          perm_solve
+        · exact ⟨d1.1, trivial, d1.2.2⟩
+  | zeroRTT =>
+    simp only [] at hn ⊢
+    obtain ⟨l1, l2⟩ := drop0RTTLoop_ledger s1.app.hist.packets.length s1.app.hist.first s1.app.hist s1.bytesInFlight [] d1.2.2
+    simp only [List.append_nil] at l1
+    cases hp : (drop0RTTLoop s1.app.hist.packets.length s1.app.hist.first s1.app.hist s1.bytesInFlight []).2.2.2 with
+    | some c => simp [hp, Res.isPanic] at hn
+    | none =>
+      simp only []
+      constructor
+      · simp only [State.afterDrop, State.setTimer, pending, evFrames_nil, List.append_nil]
+        perm_solve [l1]
+      · exact ⟨d1.1, d1.2.1, l2⟩
+
+theorem lostFrames_aux (l : List Packet) :
+    evFrames ((l.filter Packet.ackEliciting).flatMap fun p => p.allFrames.map Ev.lost) = l.flatMap Packet.allFrames := by
+  induction l with
+  | nil => rfl
+  | cons p ps ih =>
+    by_cases hae : p.ackEliciting = true
+    · simp only [List.filter_cons, hae, if_true, List.flatMap_cons, evFrames_append, evFrames_lost, ih]
+    · have hz := notAE_allFrames (by simpa using hae : p.ackEliciting = false)
+      simp only [List.filter_cons, hae, List.flatMap_cons, hz, List.nil_append]
+      simpa using ih
+
+theorem lostFramesOf_frames (pk : List (Option Packet)) : evFrames (lostFramesOf pk) = packetsFrames pk :=
+  lostFrames_aux _
+
+theorem resetForRetry_ledger {s : State} {nts : PN} (d : DummyOK s)
+    (hn : (s.resetForRetry nts).2.res.isPanic = false) :
+    (pending s ~ pending (s.resetForRetry nts).1 ++ evFrames (s.resetForRetry nts).2.evs ++ (s.resetForRetry nts).2.disc) ∧
+      DummyOK (s.resetForRetry nts).1 := by
+  unfold State.resetForRetry at hn ⊢
+  simp only [] at hn ⊢
+  cases hi : s.initial with
+  | none => simp [hi, Res.isPanic] at hn
+  | some ini =>
+    simp only []
+    constructor
+    · simp only [pending, hi, spacePending, evFrames_append, lostFramesOf_frames, Space.new, Hist.pending, packetsFrames_nil,
+        probesFrames_nil, List.nil_append, List.append_nil]
+      perm_solve
+    · refine ⟨?_, d.2.1, ?_⟩
+      · intro p hp; simp [Space.new] at hp
+      · intro p hp; simp [Space.new] at hp
+
+theorem migratedPath_ledger {s : State} {env : Env} {now : Time} (d : DummyOK s)
+    (hn : (s.migratedPath env now).2.res.isPanic = false) :
+    (pending s ~ pending (s.migratedPath env now).1 ++ evFrames (s.migratedPath env now).2.evs ++ (s.migratedPath env now).2.disc) ∧
+      DummyOK (s.migratedPath env now).1 := by
+  unfold State.migratedPath at hn ⊢
+  simp only [] at hn ⊢
+  have ml := migrateLoop_ledger s.app.hist.packets.length s.app.hist.first s.app.hist s.bytesInFlight [] d.2.2
+  cases hp : (migrateLoop s.app.hist.packets.length s.app.hist.first s.app.hist s.bytesInFlight []).2.2.2 with
+  | some c => simp [hp, Res.isPanic] at hn
+  | none =>
+    obtain ⟨l1, l2⟩ := ml hp
+    simp only [evFrames_nil, List.append_nil] at l1
+    simp only []
+    have mp := migrateProbes_ledger (migrateLoop s.app.hist.packets.length s.app.hist.first s.app.hist s.bytesInFlight []).1.probes.length 0
+      (migrateLoop s.app.hist.packets.length s.app.hist.first s.app.hist s.bytesInFlight []).1.probes [] []
+    simp only [probesFrames_nil, List.append_nil] at mp
+    constructor
+    · simp only [State.setTimer, pending, Hist.pending] at l1 ⊢
+      perm_solve [l1, mp]
+    · exact ⟨d.1, d.2.1, l2⟩
+
+
+/-- the frames an operation hands to loss recovery -/
+def handed : Op → List Frame
+  | .send _ _ _ _ _ _ frames sframes => frames ++ sframes
+  | _ => []
+
+theorem sentPacket_res (s : State) (env : Env) (t : Time) (pn la : PN) (sframes frames : List Frame) (lvl : Level)
+    (size : Int) (mtu probe : Bool) :
+    (s.sentPacket env t pn la sframes frames lvl size mtu probe).2 = .ok ∨
+      (s.sentPacket env t pn la sframes frames lvl size mtu probe).2.isPanic = true := by
+  unfold State.sentPacket
+  simp only []
+  split
+  · right; rfl
+  · split
+    · split
+      · right; rfl
+      · left; rfl
+    · split
+      · split
+        · right; rfl
+        · left; rfl
+      · split
+        · right; rfl
+        · left; rfl
+
+theorem popPacketNumber_res (s : State) (lvl : Level) (nts : PN) :
+    (s.popPacketNumber lvl nts).2.res = .ok ∨ (s.popPacketNumber lvl nts).2.res.isPanic = true := by
+  unfold State.popPacketNumber
+  split
+  · right; rfl
+  · split
+    · right; rfl
+    · left; rfl
+
+theorem popPacketNumber_out {s : State} {lvl : Level} {nts : PN} (_h : (s.popPacketNumber lvl nts).2.res = .ok) :
+    (s.popPacketNumber lvl nts).2.evs = [] ∧ (s.popPacketNumber lvl nts).2.disc = [] := by
+  unfold State.popPacketNumber
+  split
+  · simp
+  · split
+    · simp
+    · simp
+
+/-- every operation that does not panic conserves tracked + reported + discarded frames -/
+theorem step_ledger {s : State} {op : Op} {e : StepEnv} (d : DummyOK s) (hn : (s.step op e).2.res.isPanic = false) :
+    (pending s ++ handed op ~ pending (s.step op e).1 ++ evFrames (s.step op e).2.evs ++ (s.step op e).2.disc) ∧
+      DummyOK (s.step op e).1 := by
+  cases op with
+  | send lvl now la size mtu probe frames sframes =>
+    simp only [State.step, handed] at hn ⊢
+    rcases popPacketNumber_res s lvl e.nts with hp | hp
+    · simp only [hp] at hn ⊢
+      obtain ⟨p1, p2⟩ := popPacketNumber_ledger d hp
+      rcases sentPacket_res (s.popPacketNumber lvl e.nts).1 e.env now (s.popPacketNumber lvl e.nts).2.pn la sframes frames lvl size mtu probe with hs | hs
+      · obtain ⟨q1, q2⟩ := sentPacket_ledger p2 hs
+        refine ⟨?_, q2⟩
+        simp only [evFrames_nil, List.append_nil]
+        perm_solve [p1, q1]
+      · simp [hs] at hn
+    · cases hr : (s.popPacketNumber lvl e.nts).2.res with
+      | ok => simp [hr, Res.isPanic] at hp
+      | err c => simp [hr, Res.isPanic] at hp
+      | panic c => simp [hr, Res.isPanic] at hn
+  | ack lvl now ranges =>
+    simp only [State.step, handed, List.append_nil] at hn ⊢
+    exact receivedAck_ledger d hn
+  | timeout now =>
+    simp only [State.step, handed, List.append_nil] at hn ⊢
+    exact onLossDetectionTimeout_ledger d hn
+  | probe lvl =>
+    simp only [State.step, handed, List.append_nil] at hn ⊢
+    exact queueProbePacket_ledger d hn
+  | drop lvl now =>
+    simp only [State.step, handed, List.append_nil] at hn ⊢
+    exact dropPackets_ledger d hn
+  | retry =>
+    simp only [State.step, handed, List.append_nil] at hn ⊢
+    exact resetForRetry_ledger d hn
+  | migrate now =>
+    simp only [State.step, handed, List.append_nil] at hn ⊢
+    exact migratedPath_ledger d hn
+  | rcvBytes n now =>
+    simp only [State.step, handed, List.append_nil, evFrames_nil]
+    unfold State.receivedBytes
+    simp only []
+    split
+    · exact ⟨List.Perm.refl _, d⟩
+    · exact ⟨List.Perm.refl _, d⟩
+  | rcvPacket lvl now =>
+    simp only [State.step, handed, List.append_nil, evFrames_nil]
+    unfold State.receivedPacket
+    split
+    · exact ⟨List.Perm.refl _, d⟩
+    · exact ⟨List.Perm.refl _, d⟩
+
+
 end Uquic.Proofs.Sent
